@@ -24,3 +24,11 @@ import json; r=json.load(open('$r')); print('   what:', str(r.get('what'))[:300]
 done
 git -C /repo checkout -- .
 git -C /repo status --short | head -3
+# the binaries in /verif/build were built from the patched tree: force the next prepare() to rebuild them,
+# and rebuild now so that nothing started by hand picks up a seeded engine
+rm -f /verif/build/stamp.json
+python3 - <<'PY'
+import sys; sys.path.insert(0, "/verif/tools")
+import infra
+infra.prepare(lean_targets=[])
+PY
